@@ -207,7 +207,9 @@ def pitch_instances(r):
                         "frequency factor %r, kind=%s" % (fac2, knd), ("mel-kind", t, rf, t2, ef2, fac2, knd)))
     octv = r.choice([2.0, 0.5, 4.0])
     out.append(pair("octave", "melody.evaluate", (t, rf, t.copy(), ef),
-                    (t, rf, t.copy(), ef * octv), {}, "estimate x %r" % octv,
+                    (t, rf, t.copy(), ef * octv),
+                    tasks.draw_params(r, {"cent_tolerance": [100, 25, 50, 150]}),
+                    "estimate x %r" % octv,
                     ntm + ("oct", octv), only=["Raw Chroma Accuracy"]))
     out.append(pair("sign", "melody.evaluate", (t, rf, t.copy(), ef),
                     (t, rf, t.copy(), -np.abs(ef)), {}, "estimate frequencies negated",
